@@ -1297,6 +1297,9 @@ func (o *OptionParameterCapability) Serialize() ([]byte, error) {
 		}
 		buf = append(buf, pbuf...)
 	}
+	if len(buf)-2 > 255 {
+		return nil, fmt.Errorf("capabilities do not fit one optional parameter: %d octets", len(buf)-2)
+	}
 	o.ParamLen = uint8(len(buf) - 2)
 	buf[1] = o.ParamLen
 	return buf, nil
@@ -1394,6 +1397,9 @@ func (msg *BGPOpen) Serialize(options ...*MarshallingOption) ([]byte, error) {
 			return nil, err
 		}
 		pbuf = append(pbuf, onepbuf...)
+	}
+	if len(pbuf) > 255 {
+		return nil, fmt.Errorf("optional parameters do not fit an OPEN message: %d octets", len(pbuf))
 	}
 	msg.OptParamLen = uint8(len(pbuf))
 	buf[9] = msg.OptParamLen
